@@ -5,7 +5,7 @@ Advisory: builds the harness with -C instrument-coverage (own target dir), runs 
 pinned / random scenario source of every property (the same inputs the checks replay, minus the
 TLC-exported behaviours) plus the twin and Integer-table runs, merges the profiles and prints, per
 source file of /repo, the executed-line ratio and the uncovered line ranges.  The result is written to
-evidence/impl_coverage.json.  A generator miss (a reachable arm no scenario enters) shows up here."""
+reports/impl_coverage.json.  A generator miss (a reachable arm no scenario enters) shows up here."""
 import os, sys, json, glob, shutil, subprocess, re, time
 sys.path.insert(0, os.path.dirname(os.path.abspath(__file__)))
 from common import *
@@ -128,9 +128,9 @@ def main(tier="quick", seed=1):
                                         uncovered=["%d-%d" % r if r[0] != r[1] else str(r[0]) for r in ranges],
                                         executed_only_in_failing_tx=failing_only)
         tot += len(lines); hit += len(lines) - len(unc)
-    os.makedirs(os.path.join(ROOT, "evidence"), exist_ok=True)
+    os.makedirs(os.path.join(ROOT, "reports"), exist_ok=True)
     json.dump(dict(tier=tier, seed=seed, jobs=len(jobs), failed_jobs=sum(1 for r in rcs if r), lines=tot, executed=hit, files=report),
-              open(os.path.join(ROOT, "evidence", "impl_coverage.json"), "w"), indent=1)
+              open(os.path.join(ROOT, "reports", "impl_coverage.json"), "w"), indent=1)
     for f, r in report.items():
         print("%-62s %4d/%-4d %s" % (f, r["executed"], r["lines"], " ".join(r["uncovered"][:40])))
     print("-- lines executed only inside failing transactions / queries (no committing transaction passed through them):")
